@@ -424,13 +424,16 @@ pub fn explore_alphabet(w: &World, r: usize, cfg: &L1Cfg, alpha: Vec<(String, In
             // plain restart
             // (the transcription only decides whether a restart can change anything at all)
             if node.local.restarted() != node.local {
-                let restarted = bftsim::real_restart(w, r, &node.local);
+                let (restarted, restart_failure) = match bftsim::try_real_restart(w, r, &node.local) {
+                    Ok(l) => (l, None),
+                    Err(e) => (node.local.restarted(), Some(e)),
+                };
                 if restarted != node.local.restarted() {
                     // informational: the real StateMachine::start restores something else than "all durable
                     // fields, empty caches"; consequences (if any) are for the property oracles to find
                     *e.classes.entry("restart differs from the harness's transcription".into()).or_default() += 1;
                 }
-                let out = StepOut { local: restarted, sent: vec![], outcome: Some(Ok(())), crashed: false, blocked: false, set_state_calls: 0, deadline_expired: false, synced_blocks: 0, published: None, runner_error: None, panicked: None };
+                let out = StepOut { local: restarted, sent: vec![], outcome: Some(Ok(())), crashed: false, blocked: false, set_state_calls: 0, deadline_expired: false, synced_blocks: 0, published: None, runner_error: None, panicked: restart_failure };
                 handle(&mut e, "process restarts".into(), InputKind::Restart, out);
             }
             Some(e)
